@@ -53,7 +53,7 @@ func (w *c11World) specFiles(dir string) (spec, other []string) {
 	return
 }
 
-var c11OpKinds = []string{"create-by-write", "touch", "rewrite-in-place", "append", "tmp-rename-inside", "rename-in-from-outside", "hardlink-in", "rename-away", "rename-to-non-spec", "rename-from-non-spec", "unlink", "mkdir-missing", "rmdir-with-content", "recreate-dir", "create-invalid", "chmod", "truncate", "truncate", "rmdir-recreate", "rmdir-recreate"}
+var c11OpKinds = []string{"create-by-write", "touch", "rewrite-in-place", "append", "tmp-rename-inside", "rename-in-from-outside", "hardlink-in", "rename-away", "rename-to-non-spec", "rename-from-non-spec", "unlink", "mkdir-missing", "rmdir-with-content", "recreate-dir", "create-invalid", "chmod", "truncate", "truncate", "rmdir-recreate", "rmdir-recreate", "symlink-in", "symlink-dangling", "symlink-rename-in"}
 
 // do performs one operation; it returns "" when it is not applicable now.
 func (w *c11World) do(kind string) (desc string) {
@@ -73,7 +73,41 @@ func (w *c11World) do(kind string) (desc string) {
 		return fmt.Sprintf("%s%d.%s", pickStr(r, "a", "m", "z"), r.Intn(4), pickStr(r, "json", "yaml"))
 	}
 	specs, others := w.specFiles(dir)
+	// symbolic links live in a name space of their own (ln*.json/yaml) and are never
+	// written through: a write through a link changes a file outside the directory,
+	// which no watch on the directory can or must notice
 	switch kind {
+	case "rewrite-in-place", "append", "truncate", "chmod":
+		var regular []string
+		for _, n := range specs {
+			if !strings.HasPrefix(n, "ln") {
+				regular = append(regular, n)
+			}
+		}
+		specs = regular
+	}
+	lnName := func() string { return fmt.Sprintf("ln%d.%s", r.Intn(3), pickStr(r, "json", "yaml")) }
+	switch kind {
+	case "symlink-in", "symlink-dangling", "symlink-rename-in":
+		if !exists {
+			return ""
+		}
+		target := filepath.Join(w.staging, fmt.Sprintf("t%d", w.n))
+		w.n++
+		if kind != "symlink-dangling" {
+			must(os.WriteFile(target, w.content(chance(r, 85)), 0o644))
+		}
+		p := filepath.Join(dir, lnName())
+		if kind == "symlink-rename-in" {
+			tmp := filepath.Join(w.staging, fmt.Sprintf("lnk%d", w.n))
+			must(os.Symlink(target, tmp))
+			must(os.Rename(tmp, p)) // replaces an existing link of that name
+			return "symlink renamed in " + p
+		}
+		if os.Symlink(target, p) != nil {
+			return "" // the name is taken
+		}
+		return kind + " " + p
 	case "create-by-write", "create-invalid":
 		if !exists {
 			return ""
@@ -255,7 +289,7 @@ func cacheState(c *cdi.Cache, dirs []string) (string, map[string]any) {
 
 func checkC11(c *Ctx) {
 	c.Rule = "seeded histories of 1-12 file-system operations over 1-3 configured directories (+ anchor): create-by-write, touch, rewrite in place, truncate to zero length, append, tmp+rename inside, rename in from a staging directory, hard link in, rename away, rename to/from a non-Spec name, unlink, chmod, create a missing (nested) directory, remove a directory with its content, recreate it (also back to back); valid and invalid content; pacing per step in {immediately, after yield, after logical quiescence, with the watcher goroutine held so that further operations pile up behind it, from inside the constructor's own directory scan, from inside a refresh's directory scan (scan.beforeRead hook) so that the change lands after its entry was passed}; observed through ListDevices/GetDevice/GetErrors/InjectDevices only (never Refresh()); oracle: after quiescence, within two rounds of queries, devices, definitions and files in error equal those of a fresh manual cache on the final contents; distinct_nontrivial = distinct (operation-kind sequence, pacing sequence) whose final state differs from the initial one"
-	c.Assume("inotify delivers the events of one instance in order and the watcher goroutine handles one event completely before the next (quiescence by sentinel)", "renaming a configured directory itself, symlinks and bind mounts are outside the listed change kinds", "convergence is checked at history end, not at every instant")
+	c.Assume("inotify delivers the events of one instance in order and the watcher goroutine handles one event completely before the next (quiescence by sentinel)", "Spec-named symbolic links are created, replaced and removed like files but never written through (a write through a link changes a file outside the directory); bind mounts and symbolic links as configured directories are outside the listed change kinds", "convergence is checked at history end, not at every instant")
 	c.RunCases("hist", c.pick(700, 12000), 4, func(cs *Case) {
 		r := cs.R
 		root := filepath.Join(c.Scratch, sanitize(cs.Name))
@@ -285,7 +319,7 @@ func checkC11(c *Ctx) {
 		if chance(r, 30) {
 			// a change that lands while the cache is being constructed: performed from
 			// inside the constructor's own directory scan
-			kind := pickStr(r, "rename-in-from-outside", "create-by-write", "unlink", "rewrite-in-place", "rename-away", "hardlink-in")
+			kind := pickStr(r, "rename-in-from-outside", "create-by-write", "unlink", "rewrite-in-place", "rename-away", "hardlink-in", "symlink-in")
 			armed = func() {
 				if d := w.do(kind); d != "" {
 					armMu.Lock()
